@@ -1061,6 +1061,41 @@ func (h *Harness) QueryWith(method string) (code int, allow, body string, err er
 	return rec.Code, rec.Header().Get("Allow"), rec.Body.String(), nil
 }
 
+// failWriter is a ResponseWriter whose client goes away: it takes limit bytes in total, then every Write fails.
+type failWriter struct {
+	hdr    http.Header
+	limit  int
+	got    []byte
+	failed bool
+}
+
+var errClientGone = fmt.Errorf("write: broken pipe (client went away)")
+
+func (w *failWriter) Header() http.Header { return w.hdr }
+func (w *failWriter) WriteHeader(int)     {}
+func (w *failWriter) Write(p []byte) (int, error) {
+	room := w.limit - len(w.got)
+	if w.failed || room < 0 {
+		room = 0
+	}
+	if !w.failed && len(p) <= room {
+		w.got = append(w.got, p...)
+		return len(p), nil
+	}
+	w.got = append(w.got, p[:room]...)
+	w.failed = true
+	return room, errClientGone
+}
+
+// QueryFailing calls the verification handler with a ResponseWriter that fails after limit bytes; it returns what
+// the writer took.
+func (h *Harness) QueryFailing(limit int) (got string, err error) {
+	defer guard(&err)
+	w := &failWriter{hdr: http.Header{}, limit: limit}
+	h.VH.ServeHTTP(w, &http.Request{Method: "GET", URL: verifyURL, Header: http.Header{}, Body: http.NoBody})
+	return string(w.got), nil
+}
+
 // ResetWith calls the reset handler with another method than POST.
 func (h *Harness) ResetWith(method string) (code int, allow string, err error) {
 	defer guard(&err)
